@@ -39,11 +39,49 @@ func genCase(t *rapid.T) Case {
 		ho.PoolSize = rapid.SampledFrom([]int{10, 30, 60}).Draw(t, "poolT")
 	}
 	schema := gen.Schema(t, so)
+	// shape "chain": collinear points inserted one at a time give a sparse chain-like graph; deleting
+	// consecutive inner points then orphans the tail, which is re-attached to the entry node
+	chain := so.Vamana && rapid.IntRange(0, 3).Draw(t, "chain") == 0
+	if chain {
+		sv := schema[gen.PVamana]
+		p := *sv.VectorVamana
+		p.DistanceMetric, p.Quantizer, p.VectorSize = models.DistanceEuclidean, nil, uint(rapid.IntRange(1, 2).Draw(t, "chainDim"))
+		sv.VectorVamana = &p
+		schema[gen.PVamana] = sv
+	}
 	c := Case{H: gen.History{Schema: schema, MaxPointSize: 1 << 20, CacheLimit: -1}}
 	g := gen.NewHistoryGen(t, schema, c.H.MaxPointSize, ho)
 	n := rapid.IntRange(1, ho.MaxSteps).Draw(t, "nsteps")
+	var chainIds []uuid.UUID
+	chainLen := 0
+	if chain {
+		chainLen = rapid.IntRange(4, 7).Draw(t, "chainLen")
+		n = chainLen + rapid.IntRange(1, 3).Draw(t, "chainTail")
+	}
 	for i := 0; i < n; i++ {
-		c.H.Steps = append(c.H.Steps, g.Next())
+		var st gen.Step
+		switch {
+		case chain && i < chainLen:
+			free := g.Pool[i]
+			doc := gen.GenDoc(t, fmt.Sprintf("chain%d-", i), schema, ho)
+			vec := make([]float32, int(schema[gen.PVamana].VectorVamana.VectorSize))
+			vec[0] = float32(i + 1)
+			doc[gen.PVamana] = vec
+			st = gen.Step{Kind: "insert", Points: []model.Point{{Id: free, Doc: doc}}, Note: "chain"}
+			g.M.Insert(st.Points)
+			chainIds = append(chainIds, free)
+		case chain && i == chainLen:
+			lo := rapid.IntRange(0, chainLen-3).Draw(t, "chainDelLo")
+			k := rapid.IntRange(2, min(3, chainLen-1-lo)).Draw(t, "chainDelK")
+			st = gen.Step{Kind: "delete", Ids: append([]uuid.UUID{}, chainIds[lo:lo+k]...), Note: "chain inner delete"}
+			g.M.Delete(st.Ids)
+		default:
+			st = g.Next()
+		}
+		c.H.Steps = append(c.H.Steps, st)
+		if false {
+			c.H.Steps = append(c.H.Steps, g.Next())
+		}
 		var qs []models.Query
 		k := rapid.IntRange(1, nq).Draw(t, fmt.Sprintf("nq%d", i))
 		for j := 0; j < k; j++ {
@@ -87,6 +125,12 @@ func execCase(c Case) (res vt.Result) {
 		return vt.Result{Err: err}
 	}
 	defer memShard.Close()
+	// E2: the in-memory backend with the cache disabled (every operation reads the buckets)
+	memCold, err := drive.Open("", c.H.Schema, c.H.MaxPointSize, nil)
+	if err != nil {
+		return vt.Result{Err: err}
+	}
+	defer memCold.Close()
 	pool := poolOf(c.H)
 	fixed := oracle.Suite(c.H.Schema)
 	opts := oracle.ObserveOpts{GraphLists: true}
@@ -120,6 +164,17 @@ func execCase(c Case) (res vt.Result) {
 			}
 			if merr != nil {
 				return fail(i, "the in-memory backend rejected a batch the file backend accepted: %v", merr)
+			}
+			switch st.Kind {
+			case "insert":
+				merr = memCold.Insert(st.Points)
+			case "update":
+				_, merr = memCold.Update(st.Points)
+			case "delete":
+				_, merr = memCold.Delete(st.Ids)
+			}
+			if merr != nil {
+				return fail(i, "the in-memory backend with the cache disabled rejected a batch the file backend accepted: %v", merr)
 			}
 		}
 		suite := append(append([]models.Query{}, fixed...), c.Queries[i]...)
@@ -176,6 +231,12 @@ func execCase(c Case) (res vt.Result) {
 		}
 		if err := oracle.CheckSuiteAgainstModel(memShard, r.M, suite); err != nil {
 			return fail(i, "in-memory backend: %v", err)
+		}
+		if err := oracle.CheckDocs(memCold, r.M, pool); err != nil {
+			return fail(i, "in-memory backend with the cache disabled: %v", err)
+		}
+		if err := oracle.CheckSuiteAgainstModel(memCold, r.M, suite); err != nil {
+			return fail(i, "in-memory backend with the cache disabled: %v", err)
 		}
 		// exact indexes: the two backends agree on everything but graph lists
 		obsMem, err := oracle.Observe(memShard, pool, suite, oracle.ObserveOpts{})
